@@ -329,7 +329,7 @@ def check_targets(R, rng, tier):
                 if sname != "CutoffSplitter":   # CutoffSplitter.get_cutoffs does not depend on y
                     must_reject(R, key, lambda: mk().get_cutoffs(by), f"{sname}(fh={fh}, w={w}).get_cutoffs(<{label}>) {ctx}",
                                 kf=("KF:single-window-get-cutoffs-does-not-validate-y",
-                                    lambda k, v: sname == "SingleWindowSplitter" and (k == "accepted" or isinstance(v, AttributeError))))
+                                    lambda k, v: sname == "SingleWindowSplitter" and k == "accepted"))
             if sname in ("SlidingWindowSplitter", "ExpandingWindowSplitter", "SingleWindowSplitter") and (tier != "quick" or rep == 0):
                 must_accept(R, lambda: evaluate(NaiveForecaster(), mk(), y, scoring=MAE()), f"evaluate(naive, {sname}(fh={fh}, w={w}), y) {ctx}",
                             post=lambda r: None if len(r) >= 1 else "no rows")
@@ -351,7 +351,7 @@ def check_targets(R, rng, tier):
                 kf = None
                 if not with_X:
                     # _split_by_fh validates the index only through check_equal_time_index(y, X), i.e. only when X is given
-                    kf = ("KF:train-test-split-without-X-does-not-validate-y", lambda k, v: k == "accepted" or isinstance(v, (IndexError, KeyError)))
+                    kf = ("KF:train-test-split-without-X-does-not-validate-y", lambda k, v: k == "accepted" or isinstance(v, IndexError))
                 must_reject(R, key, lambda: temporal_train_test_split(by, bX, fh=fh),
                             f"temporal_train_test_split(y=<{label}>, X={'same index as y' if with_X else None}, fh={fh}) {ctx}", kf=kf)
 
